@@ -874,4 +874,5 @@ func TestVerifC14(t *testing.T) {
 	r.Cases("gossip", n, func(c *vcommon.Case) { checkGossip(c, GenGossip(c.R, c.Idx%5)) })
 	r.Cases("blockreq", n, func(c *vcommon.Case) { checkBlockRequest(c, GenBlockRequest(c.R)) })
 	r.Cases("blockresp", n, func(c *vcommon.Case) { checkBlockResponse(c, GenBlockResponse(c.R, true)) })
+	checkReuse(r, r.Scale(300))
 }
